@@ -7,6 +7,7 @@
 package regen
 
 import (
+	"context"
 	"fmt"
 	"go/ast"
 	"go/build/constraint"
@@ -18,6 +19,7 @@ import (
 	"path/filepath"
 	"sort"
 	"strings"
+	"time"
 
 	"cffverif/internal/astx"
 	"cffverif/internal/gen"
@@ -52,11 +54,21 @@ type Result struct {
 	Tokens    map[string]map[string][]string // corpus -> rel path -> comment-free token stream of the generated file
 }
 
+// runLimit bounds every child process (the build of cmd/cff, and cff on a corpus: seconds on the pinned tree). A
+// generator that does not come to an end on a valid corpus is reported (V23), not waited for.
+const runLimit = 5 * time.Minute
+
 func run(dir string, env []string, name string, args ...string) (string, error) {
-	cmd := exec.Command(name, args...)
+	ctx, cancel := context.WithTimeout(context.Background(), runLimit)
+	defer cancel()
+	cmd := exec.CommandContext(ctx, name, args...)
 	cmd.Dir = dir
 	cmd.Env = env
+	cmd.WaitDelay = 5 * time.Second
 	out, err := cmd.CombinedOutput()
+	if ctx.Err() != nil {
+		return string(out), fmt.Errorf("did not finish within %v and was stopped", runLimit)
+	}
 	return string(out), err
 }
 
